@@ -29,10 +29,13 @@ cvars == <<cfg, phase, pend, used, consumed, cg, aa, co, crashed>>
 
 None == [sp |-> "-", role |-> "none"]
 IsTop(f) == f.role \in {"topCG", "topAA", "topOther", "topClone"}
-IsCoord(f) == f.role \in {"coorAA", "coorCG", "sys"}
+IsCoord(f) == f.role \in {"coorAA", "coorAB", "coorCG", "sys"}
 (* the molecule name written in a topology file *)
 NameOf(f) == CASE f.role = "topClone" -> "clone" [] f.role = "topOther" -> "other" [] OTHER -> f.sp
-Loadable(c, t) == c.role = "coorAA" /\ t.role = "topAA" /\ c.sp = t.sp
+(* "coorAB": ONE end-resolution coordinate file holding a molecule of A and a molecule of B (an ion pair):
+   it loads with the end topology of either species *)
+Shared == [sp |-> "AB", role |-> "coorAB"]
+Loadable(c, t) == t.role = "topAA" /\ ((c.role = "coorAA" /\ c.sp = t.sp) \/ (c.role = "coorAB" /\ t.sp \in {"A", "B"}))
 
 Tops(c) == {f \in c.cands : IsTop(f)}
 Coords(c) == {f \in c.cands : IsCoord(f)}
@@ -70,13 +73,14 @@ CNext == (\E f \in pend : P1(f) \/ P2(f) \/ P3(f)) \/ P1Done \/ P2Done \/ P3Done
 
 (* ---- Abs ---------------------------------------------------------------------------------- *)
 Has(c, s, r) == [sp |-> s, role |-> r] \in c.cands
-AbsDiscovered(c) == {s \in InSystem \ c.explicit : Has(c, s, "topCG") /\ Has(c, s, "topAA") /\ Has(c, s, "coorAA")}
+CoordsFor(c, s) == {f \in c.cands : Loadable(f, [sp |-> s, role |-> "topAA"])}
+AbsDiscovered(c) == {s \in InSystem \ c.explicit : Has(c, s, "topCG") /\ Has(c, s, "topAA") /\ CoordsFor(c, s) # {}}
 Complete == {s \in InSystem : cg[s] # None /\ aa[s] # None /\ co[s] # None}
 (* what main() maps: the explicit species and the discovered ones that are not excluded *)
 AbsMapped(c) == c.explicit \cup (AbsDiscovered(c) \ c.exclude)
 OrderIndependent == phase = "done" =>
     /\ ~crashed
     /\ Complete = AbsDiscovered(cfg)
-    /\ \A s \in Complete : cg[s] = [sp |-> s, role |-> "topCG"] /\ aa[s] = [sp |-> s, role |-> "topAA"] /\ co[s] = [sp |-> s, role |-> "coorAA"]
+    /\ \A s \in Complete : cg[s] = [sp |-> s, role |-> "topCG"] /\ aa[s] = [sp |-> s, role |-> "topAA"] /\ co[s] \in CoordsFor(cfg, s)
 NeverReAddsExplicit == \A s \in cfg.explicit : cg[s] = None
 =============================================================================
